@@ -631,7 +631,7 @@ func c07Check(c *harness.Ctx) {
 func init() {
 	harness.Register(&harness.Check{
 		Property: "C07", Level: "model_checking", NeedsConc: true, QuickS: 150, ThoroughS: 900,
-		Rule:   "stateless model checking of the real (rewritten) corebgp under the vrt scheduler: for each of 4 identifier/AS configurations x {inbound, outbound completes first} x scenario shapes {forced-collision, forced-precedence, eager, kill-race with FIN/garbage} all schedules within the delay bound (quick 2, thorough 3) of the canonical schedule, with happens-before state caching; distinct_nontrivial = distinct observable outcomes (callback log + bytes written) summed over scenarios",
+		Rule:   "stateless model checking of the real (rewritten) corebgp under the vrt scheduler: for each of 4 identifier/AS configurations x {inbound, outbound completes first} x scenario shapes {forced-collision, forced-precedence, eager, kill-race with FIN/garbage, forced-kill (the remote itself ends the first connection with a Cease or FIN while the collision is being resolved: the untouched connection must end up Established or closed, never wedged), two-rounds (a second collision after the first session ended, with the other side dominant)}; 4 more configurations with identifiers more than 2^31 apart in the forced shapes; all schedules within the delay bound (quick 2, thorough 3) of the canonical schedule, with happens-before state caching; distinct_nontrivial = distinct observable outcomes (callback log + bytes written) summed over scenarios",
 		Assume: []string{"delay-bounded schedules (bound reported in coverage.min_bound_completed)", "virtual network (A3); the dominance rule is judged only in the forced shapes where the remote's script removes the TCP-level ambiguity"},
 		Run:    c07Check,
 		Replay: scnReplay("C07", func(name string) *Scn {
